@@ -163,7 +163,11 @@ func runOneSolver(ctx context.Context, sp solverSpec, file string, timeoutS int)
 // When agree is true every solver is run to completion (or timeout) and their answers
 // are collected (thorough tier).
 func solvePortfolio(file string, timeoutS int, agree bool) (SolverResult, []SolverResult) {
-	ctx, cancel := context.WithTimeout(context.Background(), time.Duration(timeoutS+2)*time.Second)
+	return solvePortfolioCtx(context.Background(), file, timeoutS, agree)
+}
+
+func solvePortfolioCtx(parent context.Context, file string, timeoutS int, agree bool) (SolverResult, []SolverResult) {
+	ctx, cancel := context.WithTimeout(parent, time.Duration(timeoutS+2)*time.Second)
 	defer cancel()
 	ch := make(chan SolverResult, len(solvers))
 	var wg sync.WaitGroup
